@@ -134,6 +134,7 @@ pub fn run(ctx: &Ctx) -> i32 {
             }
         }
     }
+    crate::fuzzstage::maybe(ctx, "C13", &mut ev, &mut rep);
     let code = rep.finish(&mut ev);
     ev.write();
     code
